@@ -4,9 +4,9 @@
    TWO LAYERS.
    (1) Declarative layer (the oracle; operators Kept, DRc, DEsc, DOwn below): given the
        persisted graph before a transaction and the in-memory reference graph at its end,
-         kept set  = what reference counting keeps (greatest set in which every previously
-                     persisted object still has a kept referrer - so unreachable cycles stay -
-                     plus the new objects reachable from it),
+         kept set  = what reference counting keeps: among the previously persisted objects and
+                     the new objects attached to them, the greatest set in which every object
+                     still has a kept referrer (so unreachable cycles stay),
          rc        = number of references from kept objects,
          escaped'  = escaped \/ rc >= 2 at the finalisation,
          owner     = the single referrer of a never-escaped object, none otherwise.
@@ -47,7 +47,10 @@ CONSTANTS Nodes,       \* 1..N
           Realms,      \* {1} or {1,2}; realm 1 receives the transaction (MsgCall Apply)
           MaxOps, MaxTx,
           OwnerFix,    \* TRUE: property behaviour; FALSE: realm.go as pinned
+          AttachGuard, \* TRUE: attaching (to) an object deleted earlier in the transaction panics; FALSE: as pinned
+          SaveGuard,   \* TRUE: the recursive save stops at an object already being saved; FALSE: as pinned
           ObjSeq,      \* all objects in a fixed order (for the JSON projection)
+          Bias,        \* TRUE: pointless steps are pruned (simulation)
           Quiet        \* TRUE: hist is not maintained (pure model checking)
 
 Nil == 0
@@ -85,8 +88,12 @@ MarkNewEscaped(s, r, o) ==
   IF s.ne[o] THEN s ELSE [s EXCEPT !.ne[o] = TRUE, !.L[r].nel = Append(@, o)]
 
 \* -------------------------------------------------------------------- DidUpdate (274-395)
+\* lines 307-317: "cannot attach a deleted object" / "cannot attach to a deleted object" are
+\* debugAssert-only in realm.go as pinned (AttachGuard = FALSE); an object deleted by a
+\* finalisation in the middle of the transaction can then be re-attached and is never saved again.
 DidUpdate(s, r, po, xo, co) ==
   IF ~s.real[po] THEN s
+  ELSE IF AttachGuard /\ (s.del[po] \/ (co # Nil /\ s.del[co])) THEN [s EXCEPT !.bad = TRUE]
   ELSE
     LET s1 == MarkDirty(s, r, po)
         s2 == IF co = Nil THEN s1
@@ -107,6 +114,7 @@ RECURSIVE IncRef(_, _, _), IncChild(_, _, _, _)
 IncChild(s, r, oo, k) ==
   LET c == s.slot[oo][k] IN
   IF c = Nil THEN s
+  ELSE IF AttachGuard /\ s.del[c] THEN [s EXCEPT !.bad = TRUE]
   ELSE LET a == [s EXCEPT !.rc[c] = @ + 1] IN
        IF a.rc[c] = 1
        THEN IF a.real[c]
@@ -186,20 +194,24 @@ SaveObj(s, oo) ==
   IN [a EXCEPT !.ps[oo] = [here |-> TRUE, slot |-> a.slot[oo], val |-> a.val[oo], rc |-> a.rc[oo],
                             own |-> a.own[oo], esc |-> a.esc[oo]],
                !.bad = @ \/ unreal]
+\* B = objects whose save is in progress further up the stack. realm.go as pinned has no such
+\* guard: a new object and a dirty object that refer to each other (both unsaved, neither
+\* escaped) make saveUnsavedObjectRecursively recurse for ever (SaveGuard = FALSE -> bad).
 RECURSIVE SaveRec(_, _, _), SaveKid(_, _, _, _)
-SaveKid(s, oo, k, d) ==
+SaveKid(s, oo, k, B) ==
   LET c == s.slot[oo][k] IN
-  IF c = Nil \/ ~(s.nr[c] \/ s.dt[c]) \/ s.esc[c] \/ s.ne[c] THEN s ELSE SaveRec(s, c, d + 1)
-SaveRec(s, oo, d) ==
-  IF d > 2 * Cardinality(Obj) THEN [s EXCEPT !.bad = TRUE]           \* unbounded recursion in the code
-  ELSE LET a == SaveKid(SaveKid(s, oo, 1, d), oo, 2, d)
-           b == SaveObj(a, oo)
-       IN IF b.nr[oo] THEN [b EXCEPT !.nr[oo] = FALSE] ELSE [b EXCEPT !.dt[oo] = FALSE]
+  IF c = Nil \/ ~(s.nr[c] \/ s.dt[c]) \/ s.esc[c] \/ s.ne[c] THEN s ELSE SaveRec(s, c, B)
+SaveRec(s, oo, B) ==
+  IF oo \in B THEN (IF SaveGuard THEN [s EXCEPT !.loop = TRUE] ELSE [s EXCEPT !.bad = TRUE, !.loop = TRUE])
+  ELSE LET a == SaveKid(SaveKid(s, oo, 1, B \cup {oo}), oo, 2, B \cup {oo})
+       IN IF a.bad THEN a
+          ELSE LET b == SaveObj(a, oo)
+               IN IF b.nr[oo] THEN [b EXCEPT !.nr[oo] = FALSE] ELSE [b EXCEPT !.dt[oo] = FALSE]
 RECURSIVE SaveCreated(_, _), SaveUpdated(_, _, _)
 SaveCreated(s, i) ==
   IF i > Len(s.cr) THEN s
   ELSE LET co == s.cr[i]
-       IN SaveCreated(IF ~s.nr[co] \/ s.del[co] THEN s ELSE SaveRec(s, co, 0), i + 1)
+       IN SaveCreated(IF ~s.nr[co] \/ s.del[co] THEN s ELSE SaveRec(s, co, {}), i + 1)
 SaveUpdated(s, r, i) ==
   IF i > Len(s.L[r].up) THEN s
   ELSE LET uo == s.L[r].up[i]
@@ -220,14 +232,17 @@ RECURSIVE NewReach(_, _, _)
 NewReach(s, T, New) ==
   LET U == T \cup {n \in New : \E p \in T : \E k \in K : s.slot[p][k] = n}
   IN IF U = T THEN T ELSE NewReach(s, U, New)
-RECURSIVE KeptFix(_, _, _, _)
-KeptFix(s, Old, New, X) ==
-  LET base == RootObjs \cup X
-      att == NewReach(s, base, New)
-      Y == {o \in X : \E p \in att : \E k \in K : s.slot[p][k] = o}
-  IN IF Y = X THEN att ELSE KeptFix(s, Old, New, Y)
+\* Reference counting on everything that is or became real: the previously persisted objects
+\* and the new objects attached (through new objects) to one of them, even to one that dies in
+\* this very transaction - a new cycle hanging off a dying object leaks exactly like an old one.
+RECURSIVE KeptFix(_, _)
+KeptFix(s, X) ==
+  LET Y == {o \in X : \E p \in X \cup RootObjs : \E k \in K : s.slot[p][k] = o}
+  IN IF Y = X THEN X \cup RootObjs ELSE KeptFix(s, Y)
 \* everything persisted after the transaction (roots included)
-Kept(s, p0) == LET Old == PHere(p0) IN KeptFix(s, Old, Nodes \ Old, Old)
+Kept(s, p0) == LET Old == PHere(p0)
+                   Att == NewReach(s, RootObjs \cup Old, Nodes \ Old) \ RootObjs
+               IN KeptFix(s, Att)
 
 CntRef(s, p, o) == Cardinality({k \in K : s.slot[p][k] = o})
 RECURSIVE SumRefs(_, _, _)
@@ -259,8 +274,9 @@ PEsc(o) == S.ps[o].esc
 PHashOK(o) == TRUE
 PCnt(p, o) == Cardinality({k \in K : S.ps[p].slot[k] = o})
 POut(p) == {S.ps[p].slot[k] : k \in K} \ {Nil}
+PInDeg(o) == Cardinality({pk \in PIds \X K : S.ps[pk[1]].slot[pk[2]] = o})
 I == INSTANCE RealmInv WITH Ids <- PIds, Counted <- PHere(S.ps), NoId <- Nil, Ext <- {},
-       IsPkg <- PIsPkg, Rc <- PRc, Owner <- POwner, Esc <- PEsc, HashOK <- PHashOK, Cnt <- PCnt, Out <- POut
+       IsPkg <- PIsPkg, Rc <- PRc, Owner <- POwner, Esc <- PEsc, HashOK <- PHashOK, Cnt <- PCnt, InDeg <- PInDeg, Out <- POut
 
 AtBoundary == nops = 0 /\ frame = 1
 RefCountExact == AtBoundary => I!RefCountExact
@@ -271,7 +287,7 @@ RECURSIVE PClosure(_)
 PClosure(T) == LET U == T \cup {q \in PIds : \E p \in T : PCnt(p, q) > 0} IN IF U = T THEN T ELSE PClosure(U)
 ReachableUnlessCyclic ==
   AtBoundary => LET R == PClosure(RootObjs) IN \A o \in PIds : o \in R \/ \E p \in PIds \ R : PCnt(p, o) > 0
-NoPanic == ~S.bad
+NoPanic == ~S.bad        \* single-realm configurations: the transcribed code never panics
 
 \* -------------------------------------------------------------------- the machine
 Blank == [slot |-> [o \in Obj |-> [k \in K |-> Nil]],
@@ -286,7 +302,8 @@ Blank == [slot |-> [o \in Obj |-> [k \in K |-> Nil]],
           alive |-> {},
           ps |-> [o \in Obj |-> IF o \in RootObjs THEN RootP(o) ELSE NoP],
           L |-> [r \in Realms |-> NoL],
-          cr |-> <<>>, dl |-> <<>>, bad |-> FALSE]
+          cr |-> <<>>, dl |-> <<>>, bad |-> FALSE,
+          loop |-> FALSE]   \* the recursive save met an object whose save is in progress
 
 \* a new transaction store: every object is what the store holds (object cache dropped)
 Reload(s) ==
@@ -321,8 +338,10 @@ Log(o) == cur' = IF Quiet THEN cur ELSE Append(cur, o)
 Budget == nops < MaxOps /\ ntx < MaxTx /\ ~S.bad
 
 \* x := &node.Node{V: label}   (the smallest free id: node ids are interchangeable)
+Unreal == {q \in held : ~S.real[q]}
 New ==
   /\ Budget
+  /\ Bias => Cardinality(Unreal) <= 1
   /\ \E o \in Nodes :
        /\ o \notin S.alive /\ \A q \in Nodes : q < o => q \in S.alive
        /\ S' = [S EXCEPT !.alive = @ \cup {o}, !.pkg[o] = frame,
@@ -341,6 +360,7 @@ Assign ==
   /\ \E po \in Obj, k \in K, co \in held \cup {Nil} :
        /\ Writable(po)
        /\ po \in RootObjs => k \in RootSlots[po]
+       /\ Bias => ~(co = Nil /\ S.slot[po][k] = Nil)
        /\ LET xo == S.slot[po][k]
           IN S' = DidUpdate([S EXCEPT !.slot[po][k] = co], frame, po, xo, co)
        /\ Log(Op("set", po, k, co))
@@ -352,6 +372,7 @@ Touch ==
   /\ Budget
   /\ \E o \in held :
        /\ Writable(o)
+       /\ Bias => S.real[o]
        /\ S' = DidUpdate([S EXCEPT !.val[o] = 1 - @], frame, o, Nil, Nil)
        /\ Log(Op("touch", o, 0, 1 - S.val[o]))
   /\ nops' = nops + 1
@@ -363,25 +384,27 @@ Enter ==
   /\ frame' = 2 /\ xr' = TRUE /\ nops' = nops + 1
   /\ Log(Op("enter", 0, 0, 0))
   /\ UNCHANGED <<S, ntx, held, pre, refok, hist>>
-\* ... and its return: FinalizeRealmTransaction of realm 2 in the middle of realm 1's transaction
+\* ... and its return: FinalizeRealmTransaction of realm 2 in the middle of realm 1's transaction.
+\* A panic of the transcribed code (bad) aborts the whole transaction.
 Leave ==
   /\ frame = 2 /\ ~S.bad
-  /\ S' = Finalize(S, 2)
+  /\ LET f == Finalize(S, 2) IN S' = IF f.bad THEN [S EXCEPT !.bad = TRUE] ELSE f
   /\ frame' = 1
   /\ Log(Op("leave", 0, 0, 0))
   /\ UNCHANGED <<nops, ntx, held, pre, xr, refok, hist>>
 
-\* Apply returns: FinalizeRealmTransaction of realm 1, the transaction commits, caches are dropped
+\* Apply returns: FinalizeRealmTransaction of realm 1, the transaction commits, caches are dropped.
+\* An aborted transaction leaves the persisted graph as it was.
 Commit ==
-  /\ frame = 1 /\ nops > 0 /\ ~S.bad
-  /\ LET f == Finalize(S, 1)
-         n == Reload(f)
-     IN /\ S' = IF f.bad THEN [S EXCEPT !.bad = TRUE] ELSE n
-        /\ held' = IF f.bad THEN held ELSE HeldAtStart(n.ps)
-        /\ pre' = IF f.bad THEN pre ELSE n.ps
+  /\ frame = 1 /\ nops > 0
+  /\ LET f == IF S.bad THEN S ELSE Finalize(S, 1)
+         n == Reload(IF f.bad THEN [S EXCEPT !.ps = pre] ELSE f)
+     IN /\ S' = n
+        /\ held' = HeldAtStart(n.ps)
+        /\ pre' = n.ps
         /\ refok' = (f.bad \/ Refines(f, pre, ~xr))
-        /\ hist' = IF Quiet \/ f.bad THEN hist
-                   ELSE Append(hist, [act |-> "Tx", ops |-> cur, xr |-> xr, st |-> Proj(f)])
+        /\ hist' = IF Quiet THEN hist
+                   ELSE Append(hist, [act |-> "Tx", ops |-> cur, xr |-> xr, abort |-> f.bad, loop |-> f.loop, st |-> Proj(n)])
   /\ nops' = 0 /\ ntx' = ntx + 1 /\ xr' = FALSE /\ cur' = <<>>
   /\ UNCHANGED frame
 
@@ -394,4 +417,6 @@ RefinesDecl == refok
 Emit == PrintT(<<"TRACE", ToJson(hist)>>)
 EmitAtEnd == ntx < MaxTx \/ Emit
 EmitEdge == hist' = hist \/ PrintT(<<"EDGE", ToJson(hist')>>)
+\* only the commit edges on which the recursive save meets an object already being saved
+EmitLoopEdge == hist' = hist \/ ~hist'[Len(hist')].loop \/ PrintT(<<"EDGE", ToJson(hist')>>)
 =============================================================================
